@@ -74,7 +74,18 @@ pub fn run_ops<I: Interner<TokenKey>>(
     ops: &[Op],
     fail: Option<&Rc<Cell<bool>>>,
 ) -> (String, Result<GreenNode, String>) {
-    let mut b: GreenNodeBuilder<'_, '_, K, I> = GreenNodeBuilder::with_cache(cache);
+    let b: GreenNodeBuilder<'_, '_, K, I> = GreenNodeBuilder::with_cache(cache);
+    let (trace, fin) = run_ops_b(b, ops, fail);
+    (trace, fin.map(|x| x.0))
+}
+
+/// The same over a builder made by any of the constructors; also returns what `finish` hands back (the cache, when the
+/// builder owned it).
+pub fn run_ops_b<'c, 'i, I: Interner<TokenKey>>(
+    mut b: GreenNodeBuilder<'c, 'i, K, I>,
+    ops: &[Op],
+    fail: Option<&Rc<Cell<bool>>>,
+) -> (String, Result<(GreenNode, Option<NodeCache<'i, I>>), String>) {
     let mut regs: Vec<Checkpoint> = Vec::new();
     let mut trace = String::new();
     for op in ops {
@@ -109,8 +120,72 @@ pub fn run_ops<I: Interner<TokenKey>>(
             Err(c) => trace.push_str(&c),
         }
     }
-    let fin = catch(move || b.finish().0);
+    let fin = catch(move || b.finish());
     (trace, fin)
+}
+
+/// histories through a cache that is MOVED into every builder (`GreenNodeBuilder::from_cache`) and handed back by `finish`
+fn history_owned<'i, I: Interner<TokenKey>>(cache: NodeCache<'i, I>, builds: &[Vec<Op>]) -> String {
+    let mut cache = Some(cache);
+    let mut results: Vec<(String, Result<GreenNode, String>)> = Vec::new();
+    for ops in builds {
+        let Some(c) = cache.take() else {
+            results.push((String::new(), Err("CACHE-LOST".into())));
+            continue;
+        };
+        let (trace, fin) = run_ops_b(GreenNodeBuilder::from_cache(c), ops, None);
+        match fin {
+            Ok((g, back)) => {
+                cache = back;
+                results.push((trace, Ok(g)));
+            }
+            Err(e) => results.push((trace, Err(e))),
+        }
+    }
+    let Some(cache) = cache else { return "CACHE-LOST (finish did not hand the owned cache back)".into() };
+    render_history(&results, cache.interner())
+}
+
+/// a single tree through a builder that owns its cache: `new`, `with_interner`, `from_interner`
+fn single_owned<'c, 'i, I: Interner<TokenKey>>(b: GreenNodeBuilder<'c, 'i, K, I>, ops: &[Op]) -> String {
+    let (trace, fin) = run_ops_b(b, ops, None);
+    match fin {
+        Ok((g, Some(cache))) => render_history(&[(trace, Ok(g))], cache.interner()),
+        Ok((_, None)) => "NO-CACHE (finish of a builder that owns its cache returned none)".into(),
+        Err(e) => format!("{trace} | PANIC:{e} || share "),
+    }
+}
+
+fn render_history<I: Resolver<TokenKey> + ?Sized>(results: &[(String, Result<GreenNode, String>)], interner: &I) -> String {
+    let mut out = String::new();
+    let mut all = Vec::new();
+    for (trace, t) in results {
+        let mut s = String::new();
+        match t {
+            Ok(n) => {
+                dump_green(n, interner, &mut s);
+                addrs(n, &mut all);
+            }
+            Err(c) => s = format!("PANIC:{c}"),
+        }
+        out.push_str(&format!("{} | {} || ", trace, s));
+    }
+    let mut seen: Vec<usize> = Vec::new();
+    let ids: Vec<String> = all
+        .iter()
+        .map(|a| {
+            let i = match seen.iter().position(|x| x == a) {
+                Some(i) => i,
+                None => {
+                    seen.push(*a);
+                    seen.len() - 1
+                }
+            };
+            i.to_string()
+        })
+        .collect();
+    out.push_str(&format!("share {}", ids.join(",")));
+    out
 }
 
 /// `B <backend> <ops...>`
@@ -227,6 +302,24 @@ pub fn run_history(args: &[&str]) -> String {
             let mut cache = NodeCache::with_interner(&mut interner);
             history(&mut cache, &builds, Some(&flag))
         }
+        // the other ways of making a builder: the cache moved into every builder and handed back by finish ...
+        "o" => history_owned(NodeCache::new(), &builds),
+        "i" => {
+            let mut cache = NodeCache::from_interner(cstree::interning::new_interner());
+            let _ = cache.interner_mut();
+            history_owned(cache, &builds)
+        }
+        "q" => {
+            let mut interner = UserInterner::default();
+            history_owned(NodeCache::with_interner(&mut interner), &builds)
+        }
+        // ... and builders that own their cache (one tree)
+        "z" => single_owned(GreenNodeBuilder::new(), &builds[0]),
+        "w" => {
+            let mut interner = cstree::interning::new_interner();
+            single_owned(GreenNodeBuilder::with_interner(&mut interner), &builds[0])
+        }
+        "j" => single_owned(GreenNodeBuilder::from_interner(cstree::interning::new_interner()), &builds[0]),
         #[cfg(feature = "lasso")]
         "r" => {
             let mut interner: lasso::Rodeo<lasso::Spur> = lasso::Rodeo::new();
